@@ -193,9 +193,12 @@ func (t *trTranslator) leanType(from *trUnit, ty types.Type, pos token.Pos) stri
 	case *types.Pointer:
 		// a pointer to a struct is handled as the struct VALUE; the translator rejects the uses in which the two differ
 		// (comparison of pointers, assignment through a pointer that is not the receiver, nil)
-		if n, ok := trUnalias(x.Elem()).(*types.Named); ok {
+		if n, ok := trUnalias(x.Elem()).(*types.Named); ok && n.Obj().Pkg() != nil {
 			if op, ok := trOpaque["*"+n.Obj().Pkg().Path()+"."+n.Obj().Name()]; ok {
 				return op
+			}
+			if strings.HasPrefix(n.Obj().Pkg().Path(), trKnutPath+"lib/syntax") {
+				return "Ref" // a pointer into the syntax tree: only copied by the translated code (comparison, dereference are rejected)
 			}
 			if _, ok := n.Underlying().(*types.Struct); ok {
 				return t.leanType(from, n, pos)
